@@ -140,3 +140,42 @@ Theorem C17_count_sweep_counts : forall deps cs r,
        /\ (forall c, In c cs -> In (tuple_of args c) (map fst cnt))) deps r.
 Proof. exact count_sweep_counts. Qed.
 Print Assumptions C17_count_sweep_counts.
+
+From Verif Require Import Proofs.SweepFilterB.
+
+(* filtered_sweep(keys) of a sweep without derivers, constants and exclude: the filtered sweep enumerates the
+   distinct projections onto keys - no two of its combinations are equal as finite maps (nodup_ceq), each is the
+   projection of a combination of the sweep, and every projection occurs.
+   FULL STATEMENT (false of the code, see C17_filtered_is_projection_refuted): the same without the hypothesis
+   marked "guard".  Value lists without duplicates inside one key, as in DESIGN.md. *)
+Theorem C17_filtered_is_projection_partial : forall s keys l,
+  wf_sweep s = true -> in_item_order s = true ->
+  opt_keys (consts s) = [] -> excl s = None -> ders s = None ->
+  Forall (fun kv => NoDup (snd kv)) (items s) ->
+  keys <> [] -> NoDup keys -> incl keys (concat (groups s)) ->
+  Forall (fun g => 0 < glen (items s) g) (groups s) ->                 (* guard: filtered-ignores-empty-dimension *)
+  generate s = Ok l ->
+  exists f l', filtered s keys = Ok f /\ generate f = Ok l' /\ len f = Ok (length l')
+    /\ nodup_ceq l'
+    /\ (forall x, In x l' -> exists c, In c l /\ ceq (proj keys c) x)
+    /\ (forall c, In c l -> exists x, In x l' /\ ceq (proj keys c) x).
+Proof. exact filtered_no_derivers. Qed.
+Print Assumptions C17_filtered_is_projection_partial.
+
+Example C17_filtered_hyps_inhabited :
+  wf_sweep e_f = true /\ in_item_order e_f = true
+  /\ opt_keys (consts e_f) = [] /\ excl e_f = None /\ ders e_f = None
+  /\ Forall (fun kv => NoDup (snd kv)) (items e_f)
+  /\ [s "c"; s "a"] <> [] /\ NoDup [s "c"; s "a"] /\ incl [s "c"; s "a"] (concat (groups e_f))
+  /\ Forall (fun g => 0 < glen (items e_f) g) (groups e_f)
+  /\ exists l, generate e_f = Ok l /\ length l = 6.
+Proof. exact filtered_example_hyps. Qed.
+
+(* dims = the item keys as plain strings in another order: the code enumerates in item order, i.e. the list is
+   exactly the documented list of the same sweep with dims omitted *)
+Theorem C17_generate_permuted : forall s d,
+  wf_sweep s = true -> dims s = Some d -> dims_is_keyset d (dkeys (items s)) = true ->
+  generate s = spec_list (set_dims s None) /\ wf_sweep (set_dims s None) = true
+  /\ in_item_order (set_dims s None) = true.
+Proof. exact generate_permuted. Qed.
+Print Assumptions C17_generate_permuted.
